@@ -37,6 +37,11 @@ def problems(mod):
             names = [c.name for c in comps]
             if len(set(names)) != len(names):
                 out.append(("duplicate-identifier", where))
+            if mod.tagdefault == "AUTOMATIC" and t.ext and not any(c.type.tag for c in (t.comps or []) + (t.comps2 or [])) \
+                    and any(c.type.tag for c in t.ext):
+                # X.680 25.8 / 29.?: the decision to tag automatically is taken on the root; tagged additions under an
+                # automatically tagged root are an error (asn1c: "extensions are tagged but root components are not")
+                out.append(("tagged-addition-untagged-root", where))
             # make sure every referenced type exists before computing tags
             for c in comps:
                 visit(c.type, where + "." + c.name)
@@ -46,13 +51,34 @@ def problems(mod):
                 tagsets = [mod.outer_tags(c) for c in comps]
             except (KeyError, ValueError):
                 return
+            def exposes_ext(ct, depth=0):
+                """the component's outermost tags are those of an untagged extensible CHOICE (X.680 52: its conceptual
+                future additions clash with those of another such component in the same scope)"""
+                if depth > 20:
+                    return False
+                if ct.tag is not None:
+                    return False
+                if ct.kind == "REF":
+                    return ct.ref in mod.types and exposes_ext(mod.types[ct.ref], depth + 1)
+                if ct.kind != "CHOICE":
+                    return False
+                if ct.ext is not None:
+                    return True
+                return any(a.autotag is None and exposes_ext(a.type, depth + 1) for a in ct.all_comps())
             def via(c):
                 # the component is a *reference* to an untagged CHOICE (tags reached through a named choice)
                 return "choice-ref" if (c.type.kind == "REF" and c.autotag is None and not mod.tag_chain(c.type)) else \
                     ("choice-inline" if (c.type.kind == "CHOICE" and c.autotag is None and not mod.tag_chain(c.type)) else "direct")
             if t.kind in ("CHOICE", "SET"):
+                if t.ext is not None:
+                    # the type's own extension marker stands for a conceptual future addition as well
+                    for c in comps:
+                        if c.autotag is None and exposes_ext(c.type):
+                            out.append(("extensible-choices-clash-%s" % t.kind, "%s: %s/..." % (where, c.name), "choice"))
                 for i in range(len(comps)):
                     for j in range(i + 1, len(comps)):
+                        if comps[i].autotag is None and comps[j].autotag is None and exposes_ext(comps[i].type) and exposes_ext(comps[j].type):
+                            out.append(("extensible-choices-clash-%s" % t.kind, "%s: %s/%s" % (where, comps[i].name, comps[j].name), "choice"))
                         if tagsets[i] & tagsets[j]:
                             out.append(("tag-collision-%s" % t.kind, "%s: %s/%s" % (where, comps[i].name, comps[j].name),
                                         "+".join(sorted([via(comps[i]), via(comps[j])]))))
@@ -68,6 +94,9 @@ def problems(mod):
                         group = list(range(i, min(j + 1, len(root))))     # the run and the component following it
                         for a in range(len(group)):
                             for b in range(a + 1, len(group)):
+                                ca, cb = root[group[a]], root[group[b]]
+                                if ca.autotag is None and cb.autotag is None and exposes_ext(ca.type) and exposes_ext(cb.type):
+                                    out.append(("extensible-choices-clash-SEQUENCE", "%s: %s/%s" % (where, ca.name, cb.name), "choice"))
                                 if rts[group[a]] & rts[group[b]]:
                                     out.append(("tag-collision-SEQUENCE", "%s: %s/%s" % (where, root[group[a]].name, root[group[b]].name),
                                                 "+".join(sorted([via(root[group[a]]), via(root[group[b]])]))))
@@ -164,6 +193,11 @@ class TagGen:
                 c = Comp(nm, mt)
                 if kind != "CHOICE" and rng.random() < 0.45:
                     c.optional = True
+                    # some of them DEFAULT instead of OPTIONAL (same tag rules, another flag in the compiler)
+                    if mt.kind in ("BOOLEAN", "INTEGER") and rng.random() < 0.5:
+                        c.optional = False
+                        c.has_default = True
+                        c.default = True if mt.kind == "BOOLEAN" else 5
                 # manual tags on some members
                 if rng.random() < 0.35 and mt.tag is None:
                     mode = rng.choice([None, "IMPLICIT", "EXPLICIT"])
@@ -184,6 +218,11 @@ class TagGen:
             # member, brings in the "potential future addition" tag rules, which the statement does not cover
             if kind == "CHOICE" and allow_choice and rng.random() < 0.3:
                 t.ext = []
+            if kind == "CHOICE" and not allow_choice and len(comps) >= 3 and rng.random() < 0.5:
+                # untagged CHOICE meant to be used as a member: its last alternative(s) become extension additions, whose tags
+                # take part in the distinctness rules of the enclosing type like those of the root alternatives
+                k = rng.choice([1, 1, 2]) if len(comps) > 3 else 1
+                t = Type(kind, comps=comps[:-k], ext=comps[-k:])
             probe = Module("P", self.mod.tagdefault)
             probe.types = dict(self.mod.types)
             probe.types["X"] = t
@@ -312,6 +351,8 @@ def mutants(mod, rng, limit=None):
                 continue    # copying an inline type duplicates its member names -> asn1c's (documented) C name clash
             # give j the same underlying type as i (keeps j's own tag if any)
             tag = cj.type.tag
+            if cj.has_default:
+                cj.has_default, cj.optional = False, True       # the DEFAULT value belongs to the old type
             cj.type = copy.deepcopy(ci.type)
             cj.type.tag = None
             if tag is not None:
@@ -324,6 +365,8 @@ def mutants(mod, rng, limit=None):
             cj.name = ci.name
         elif fam == "dangling":
             tag = ci.type.tag
+            if ci.has_default:
+                ci.has_default, ci.optional = False, True
             ci.type = Type("REF", ref="NoSuchType", tag=(tag[0], tag[1], "EXPLICIT") if tag else None)
         elif fam == "make-optional":
             if t.kind == "CHOICE" or ci.optional or ci.has_default:
@@ -332,6 +375,68 @@ def mutants(mod, rng, limit=None):
         for_each_comp(t, lambda c: setattr(c, "autotag", None))
         m.finalize()
         yield fam, m
+
+
+def catalogue(rng, limit=None):
+    """systematic small modules around the tag-distinctness rules: a SEQUENCE run (every length 1..3 of OPTIONAL / DEFAULT
+    components in front of a mandatory one), a SET and a CHOICE, in which two positions carry the INTEGER tag -- directly, through
+    a reference, or through an untagged CHOICE (root alternative, extension addition, nested choice); and the twin module in
+    which the second carrier has another tag.  Whether a module is ambiguous is decided by problems()."""
+    carriers = ["direct", "ref", "choice-root", "choice-add", "choice-nested"]
+    fillers = [("BOOLEAN", True), ("OCTET STRING", b"\x00"), ("REAL", 0.0), ("BIT STRING", None), ("NULL", None)]
+    plans = []
+    for scope in ("SEQUENCE", "SET", "CHOICE"):
+        for n in ((2, 3, 4) if scope == "SEQUENCE" else (2, 3)):
+            for a in range(n):
+                for b in range(a + 1, n):
+                    for ca in carriers:
+                        for cb in carriers:
+                            flagsets = [None]
+                            if scope == "SEQUENCE":
+                                flagsets = [[rng.choice("OD") for _ in range(n - 1)] for _ in range(2)] + [["O"] * (n - 1), ["D"] * (n - 1)]
+                            for fl in flagsets:
+                                for twin in (False, True):
+                                    plans.append((scope, n, a, b, ca, cb, tuple(fl) if fl else None, twin))
+    rng.shuffle(plans)
+    if limit:
+        plans = plans[:limit]
+    for k, (scope, n, a, b, ca, cb, fl, twin) in enumerate(plans):
+        m = Module("K%d" % k, rng.choice(["EXPLICIT", "IMPLICIT", "AUTOMATIC"]))
+        m.add("S", Type("INTEGER"))
+        m.add("U", Type("CHOICE", comps=[Comp("ux", Type("INTEGER")), Comp("uy", Type("IA5String"))]))
+        m.add("V", Type("CHOICE", comps=[Comp("vy", Type("VisibleString"))], ext=[Comp("vx", Type("INTEGER"))]))
+        m.add("W2", Type("CHOICE", comps=[Comp("wx", Type("INTEGER")), Comp("wq", Type("UTCTime"))]))
+        m.add("W", Type("CHOICE", comps=[Comp("wy", Type("GeneralizedTime")), Comp("wz", Type("REF", ref="W2"))]))
+
+        def carrier(kind, other=False):
+            if other:
+                return Type("UTF8String")
+            return {"direct": lambda: Type("INTEGER"), "ref": lambda: Type("REF", ref="S"), "choice-root": lambda: Type("REF", ref="U"),
+                    "choice-add": lambda: Type("REF", ref="V"), "choice-nested": lambda: Type("REF", ref="W")}[kind]()
+        comps = []
+        fi = 0
+        for i in range(n):
+            if i == a:
+                t = carrier(ca)
+            elif i == b:
+                t = carrier(cb, other=twin)
+            else:
+                t = Type(fillers[fi % len(fillers)][0])
+                fi += 1
+            c = Comp("c%d" % i, t)
+            if scope == "SEQUENCE" and i < n - 1:
+                f = fl[i]
+                dv = {"BOOLEAN": True, "OCTET STRING": b"\x00", "REAL": 0.0, "INTEGER": 5}.get(t.kind)
+                if f == "D" and dv is not None:
+                    c.has_default, c.default = True, dv
+                else:
+                    c.optional = True
+            comps.append(c)
+        m.add("T", Type(scope, comps=comps))
+        for t in m.types.values():
+            _setmod(t, m)
+        m.finalize()
+        yield "catalogue:%s:%s/%s%s" % (scope, ca, cb, ":twin" if twin else ""), m
 
 
 def inject_all(mod, rng, limit=8):
